@@ -96,6 +96,14 @@ F_Compare(Vr, Vc, tips, identical, res) ==
                       \cup Fail("CountCommon", res.common = Cardinality(R \cap C))
                       \cup Fail("CountOnlyCompared", res.tree2 = Cardinality(C \ R)))
 
+\* Tree.CommonEdges (pairwise search) and Edge.FindEdge over all branches
+F_CommonEdges(Vr, Vc, tips, res) ==
+  LET R == CmpSplits(Vr, tips)
+      C == CmpSplits(Vc, tips)
+  IN  Fail("CommonEdgesOnlyReference", res.tree1 = Cardinality(R \ C))
+      \cup Fail("CommonEdgesCommon", res.common = Cardinality(R \cap C))
+      \cup Fail("FindEdgeFindsExactlyTheSharedSplits", res.found_all = Cardinality(Splits(Vr) \cap Splits(Vc)))
+
 \* the Robinson-Foulds distance printed by `compare trees --rf`
 F_CompareRF(Vr, Vc, tips, res) ==
   LET R == CmpSplits(Vr, tips)
